@@ -753,3 +753,205 @@ Proof.
   destruct (argparse option_table cli (default_ns option_table) false); try reflexivity.
   destruct (ns_get ns d_verbosity); try reflexivity. destruct (ns_get ns d_quietness); reflexivity.
 Qed.
+(* ------------------------------------------------------------------ list displays of quoted items *)
+Section RoundtripTail.
+  Variable q : N.
+  Variable esc : N -> text.
+  Variable valid : N -> Prop.
+  Hypothesis q_quote : q = 34 \/ q = 39.
+  Hypothesis esc_body : forall c rest, valid c -> body q false (esc c ++ rest) = push c (body q false rest).
+  Hypothesis esc_head : forall c, valid c -> exists x tl, esc c = x :: tl /\ x <> q.
+
+  Lemma rt_body_tail : forall s tail, Forall valid s ->
+    body q false ((flat_map esc s ++ [q]) ++ tail) = LOk s tail.
+  Proof.
+    induction s as [|c s IH]; intros tail H.
+    - cbn. rewrite N.eqb_refl. reflexivity.
+    - inversion H; subst. cbn [flat_map]. rewrite <- !app_assoc, esc_body by assumption.
+      rewrite app_assoc, IH by assumption. reflexivity.
+  Qed.
+
+  Lemma rt_head_tail : forall s tail, Forall valid s -> (forall t r, tail = t :: r -> t <> q) ->
+    open_quote q ((flat_map esc s ++ [q]) ++ tail) = (false, (flat_map esc s ++ [q]) ++ tail).
+  Proof.
+    intros s tail H Ht. destruct H as [|c s Hc Hs].
+    - cbn [flat_map app]. unfold open_quote. destruct tail as [|t1 tail]; [reflexivity|].
+      rewrite N.eqb_refl. cbn [andb].
+      replace (t1 =? q) with false; [reflexivity|]. symmetry. apply N.eqb_neq. eapply Ht. reflexivity.
+    - cbn [flat_map]. destruct (esc_head c Hc) as (x & tl & E & Hx). rewrite E. cbn [app].
+      apply open_quote_single. exact Hx.
+  Qed.
+
+  Lemma rt_read_item : forall s tail, Forall valid s -> (forall t r, tail = t :: r -> t <> q) ->
+    read_item ((q :: flat_map esc s ++ [q]) ++ tail) = ItOk s tail.
+  Proof.
+    intros s tail H Ht. cbn [app]. unfold read_item.
+    replace (is_quote q) with true by (destruct q_quote as [E|E]; rewrite E; reflexivity).
+    rewrite rt_head_tail, rt_body_tail by assumption. reflexivity.
+  Qed.
+End RoundtripTail.
+
+Lemma repr_read_item : forall printable s tail, Forall (repr_valid printable) s ->
+  (forall t r, tail = t :: r -> t <> 34 /\ t <> 39) ->
+  read_item (py_repr printable s ++ tail) = ItOk s tail.
+Proof.
+  intros printable s tail H Ht. unfold py_repr.
+  pose proof (repr_quote_is_quote s) as Hq.
+  apply (rt_read_item (repr_quote s) (repr_char printable (repr_quote s)) (repr_valid printable)); auto.
+  - intros c rest Hc. apply shape_body; auto using repr_char_shape.
+  - intros c Hc. apply shape_head with (c := c); auto using repr_char_shape.
+  - intros t r E. destruct (Ht t r E) as [A B]. destruct Hq as [Hq|Hq]; rewrite Hq; assumption.
+Qed.
+
+(* a quoting function good enough for list displays *)
+Definition item_quoter (quote : text -> text) (ok : text -> Prop) : Prop :=
+  forall s, ok s ->
+    (forall tail, (forall t r, tail = t :: r -> t <> 34 /\ t <> 39) -> read_item (quote s ++ tail) = ItOk s tail) /\
+    (exists q rest, quote s = q :: rest /\ is_quote q = true) /\
+    forallb clean_char (quote s) = true.
+
+Lemma quote_not_blank : forall q, is_quote q = true -> is_blank q = false /\ q <> 93 /\ q <> 44.
+Proof.
+  intros q H. unfold is_quote in H. apply orb_true_iff in H.
+  destruct H as [H|H]; apply N.eqb_eq in H; subst q; repeat split; discriminate.
+Qed.
+
+Section ListDisplay.
+  Variable quote : text -> text.
+  Variable ok : text -> Prop.
+  Hypothesis Q : item_quoter quote ok.
+
+  Definition display_tail (items : list text) : text := join_with [44; 32] (map quote items) ++ [93].
+
+  Lemma display_tail_head : forall x l, ok x -> exists q rest, display_tail (x :: l) = q :: rest /\ is_quote q = true.
+  Proof.
+    intros x l Hx. destruct (Q x Hx) as (_ & (q & rest & E & Hq) & _). unfold display_tail.
+    destruct l as [|y l]; cbn [map join_with]; rewrite E; cbn [app]; eauto.
+  Qed.
+
+  Lemma skip_ws_quote : forall q rest, is_quote q = true -> skip_ws (q :: rest) = q :: rest.
+  Proof. intros q rest H. cbn [skip_ws]. destruct (quote_not_blank q H) as (E & _). rewrite E. reflexivity. Qed.
+
+  Lemma list_items_display : forall items fuel acc s, Forall ok items -> (length items < fuel)%nat ->
+    skip_ws s = display_tail items ->
+    list_items fuel s acc = LsOk (rev acc ++ items).
+  Proof.
+    induction items as [|x items IH]; intros fuel acc s Hok Hf Hs.
+    - destruct fuel as [|f]; [lia|]. cbn [list_items]. rewrite Hs. unfold display_tail. cbn.
+      rewrite app_nil_r. reflexivity.
+    - destruct fuel as [|f]; [lia|]. cbn [list_items]. rewrite Hs.
+      inversion Hok as [|? ? Hx Hitems]; subst.
+      destruct (display_tail_head x items Hx) as (q & rest & E & Hq).
+      destruct (quote_not_blank q Hq) as (Hb & H93 & H44).
+      rewrite E. replace (q =? 93) with false by (symmetry; apply N.eqb_neq; exact H93).
+      rewrite <- E. clear E rest.
+      destruct (Q x Hx) as (Hread & _ & _).
+      unfold display_tail. destruct items as [|y items].
+      + cbn [map join_with]. rewrite Hread by (intros t r E; inversion E; subst; split; discriminate).
+        reflexivity.
+      + change (join_with [44; 32] (map quote (x :: y :: items)))
+          with (quote x ++ [44; 32] ++ join_with [44; 32] (map quote (y :: items))).
+        rewrite <- !app_assoc. rewrite Hread by (intros t r E; inversion E; subst; split; discriminate).
+        cbn [app skip_ws]. change (is_blank 44) with false. cbv iota.
+        change (44 =? 44) with true. cbv iota.
+
+        rewrite (IH f (x :: acc)).
+        * cbn [rev]. rewrite <- app_assoc. reflexivity.
+        * exact Hitems.
+        * cbn [length] in Hf |- *. lia.
+        * inversion Hitems as [|? ? Hy _]; subst.
+          destruct (display_tail_head y items Hy) as (q' & rest' & E' & Hq').
+          fold (display_tail (y :: items)). rewrite E'.
+          change (skip_ws (32 :: q' :: rest')) with (skip_ws (q' :: rest')).
+          apply skip_ws_quote. exact Hq'.
+  Qed.
+End ListDisplay.
+
+Lemma ends_with_snoc : forall c l, ends_with c (l ++ [c]) = true.
+Proof.
+  induction l as [|x l IH]; cbn [app ends_with]; [apply N.eqb_refl|].
+  destruct (l ++ [c]) eqn:E; [destruct l; discriminate | exact IH].
+Qed.
+
+Section ListDisplayTop.
+  Variable quote : text -> text.
+  Variable ok : text -> Prop.
+  Hypothesis Q : item_quoter quote ok.
+
+  Lemma join_clean : forall items, Forall ok items ->
+    forallb clean_char (join_with [44; 32] (map quote items)) = true.
+  Proof.
+    induction items as [|x items IH]; intros H; [reflexivity|].
+    inversion H as [|? ? Hx Hr]; subst. destruct (Q x Hx) as (_ & _ & Hc).
+    destruct items as [|y items]; [exact Hc|].
+    change (join_with [44; 32] (map quote (x :: y :: items)))
+      with (quote x ++ [44; 32] ++ join_with [44; 32] (map quote (y :: items))).
+    rewrite !forallb_app, Hc, IH by exact Hr. reflexivity.
+  Qed.
+
+  Lemma join_length : forall items, Forall ok items ->
+    Nat.le (length items) (length (join_with [44; 32] (map quote items))).
+  Proof.
+    induction items as [|x items IH]; intros H; [cbn; lia|].
+    inversion H as [|? ? Hx Hr]; subst. destruct (Q x Hx) as (_ & (q & rest & E & _) & _).
+    destruct items as [|y items]; [cbn [map join_with]; rewrite E; cbn; lia|].
+    change (join_with [44; 32] (map quote (x :: y :: items)))
+      with (quote x ++ [44; 32] ++ join_with [44; 32] (map quote (y :: items))).
+    rewrite !app_length. specialize (IH Hr). rewrite E. cbn [length] in *. lia.
+  Qed.
+
+  Theorem list_display_eval : forall items, Forall ok items ->
+    py_list_literal_eval (list_display quote items) = LsOk items.
+  Proof.
+    intros items H. unfold py_list_literal_eval, list_display.
+    assert (Hc : forallb clean_char (91 :: join_with [44; 32] (map quote items) ++ [93]) = true).
+    { cbn [forallb]. rewrite forallb_app, join_clean by exact H. reflexivity. }
+    assert (Hbad : existsb bad_source_char (91 :: join_with [44; 32] (map quote items) ++ [93]) = false).
+    { apply not_true_is_false. intros Hex. apply existsb_exists in Hex. destruct Hex as (x & Hin & Hx).
+      rewrite forallb_forall in Hc. specialize (Hc x Hin). unfold clean_char in Hc. rewrite Hx in Hc. discriminate. }
+    rewrite Hbad. rewrite normalize_no_cr.
+    2:{ apply forallb_forall. intros x Hin. rewrite forallb_forall in Hc. specialize (Hc x Hin).
+        unfold clean_char in Hc. apply andb_true_iff in Hc. destruct Hc as [Hc _].
+        apply andb_true_iff in Hc. destruct Hc as [_ Hc]. exact Hc. }
+    change (91 =? 91) with true. cbv iota.
+    rewrite (list_items_display quote ok Q items); [reflexivity | exact H | |].
+    - rewrite app_length. pose proof (join_length items H). cbn [length]. lia.
+    - fold (display_tail quote items). destruct items as [|x items]; [reflexivity|].
+      inversion H as [|? ? Hx _]; subst.
+      destruct (display_tail_head quote ok Q x items Hx) as (q & rest & E & Hq). rewrite E.
+      apply skip_ws_quote. exact Hq.
+  Qed.
+
+  Theorem ini_value_list_display : forall split items, Forall ok items ->
+    ini_value split (list_display quote items) = IVal (VList items).
+  Proof.
+    intros split items H. unfold ini_value.
+    rewrite (list_display_eval items H). unfold list_display.
+    cbn [nonempty negb andb starts_with]. change (91 =? 91) with true.
+    change (91 :: join_with [44; 32] (map quote items) ++ [93])
+      with ((91 :: join_with [44; 32] (map quote items)) ++ [93]).
+    rewrite ends_with_snoc. reflexivity.
+  Qed.
+End ListDisplayTop.
+
+Lemma repr_item_quoter : forall printable, item_quoter (py_repr printable) (Forall (repr_valid printable)).
+Proof.
+  intros printable s H. split; [|split].
+  - intros tail Ht. apply repr_read_item; assumption.
+  - unfold py_repr. exists (repr_quote s). eexists. split; [reflexivity|].
+    destruct (repr_quote_is_quote s) as [E|E]; rewrite E; reflexivity.
+  - unfold py_repr. pose proof (repr_quote_is_quote s) as Hq.
+    apply (rt_clean (repr_quote s) (repr_char printable (repr_quote s)) (repr_valid printable)); auto.
+    + intros c rest Hc. apply shape_scan with (c := c); auto using repr_char_shape.
+    + intros c rest Hc. apply shape_body; auto using repr_char_shape.
+    + intros c Hc. apply shape_clean with (q := repr_quote s) (c := c); auto using repr_char_shape.
+    + intros c Hc. apply shape_head with (c := c); auto using repr_char_shape.
+Qed.
+
+Theorem ini_value_repr_list : forall printable split items,
+  Forall (Forall (repr_valid printable)) items ->
+  ini_value split (list_display (py_repr printable) items) = IVal (VList items).
+Proof.
+  intros printable split items H.
+  apply (ini_value_list_display (py_repr printable) (Forall (repr_valid printable)) (repr_item_quoter printable)). exact H.
+Qed.
